@@ -118,6 +118,21 @@ def main(argv):
                 print(f"SELFTEST-FAIL {prop}/{tier}: child interpreter failed: {out.stderr[-800:]}")
                 ok = False
                 continue
+            # order independence: the same runs executed in reverse order in this process (a run must not depend on
+            # what the process did before it: recycled ids, module-level state, caches)
+            import random as _r
+            from ..engine import get_machine as _gm, run_seed as _rs
+            _m = _gm(machine)
+            rev = {}
+            for i in reversed(range(n)):
+                rng_ = _r.Random(_rs(seed, machine, prop, tier, i))
+                run_ = _m.generate(rng_, tier, prop)
+                run_["machine"] = machine
+                res_ = _m.execute(run_, (prop,))
+                rev[i] = res_.digest() + ":" + ",".join(sorted(v["signature"] for v in res_.violations))
+            if any(rev[i] != a[i] for i in range(n)):
+                print(f"SELFTEST-FAIL order independence {prop}/{tier}: run indices {[i for i in range(n) if rev[i] != a[i]][:10]} give another digest when executed in reverse order")
+                ok = False
             if a != b or a != c:
                 bad = [i for i in range(n) if not (a[i] == b[i] == c[i])]
                 print(f"SELFTEST-FAIL determinism {prop}/{tier}: run indices {bad[:10]} differ (same-interpreter {a != b}, fresh-interpreter {a != c})")
